@@ -133,7 +133,7 @@ func genScenario(cfg ScenarioCfg) *rapid.Generator[Scenario] {
 			Opts:   drawOpts(t, OptsCfg{MinPop: cfg.MinPop, MaxPop: cfg.MaxPop, Structural: cfg.Structural || rapid.Bool().Draw(t, "structural")}),
 			Epochs: rapid.IntRange(1, cfg.MaxEpochs).Draw(t, "epochs"), Seed: int64(rapid.IntRange(0, 1<<30).Draw(t, "seed"))}
 		sc.Fit = FitnessProg{Kind: rapid.SampledFrom(cfg.FitnessKinds).Draw(t, "fitness program"),
-			Scale: rapid.SampledFrom([]float64{1, 1, 0.01, 16, 1e6, 1e9}).Draw(t, "fitness scale"), Salt: int64(rapid.IntRange(0, 1<<20).Draw(t, "fitness salt"))}
+			Scale: rapid.SampledFrom([]float64{1, 1, 1, 0.01, 16, 1e6, 1e9, 1e-6, 1e-14, 1e-40}).Draw(t, "fitness scale"), Salt: int64(rapid.IntRange(0, 1<<20).Draw(t, "fitness salt"))}
 		switch cfg.Parallel {
 		case 1:
 			sc.Opts.Parallel = rapid.IntRange(0, 3).Draw(t, "parallel") == 0
